@@ -280,6 +280,7 @@ func runC19(cx *Ctx, r *Report) {
 		}
 		r.check(bad == "", "counter-full-width", "AddRecord", "", fmt.Sprintf("the running counter reaches the id preimage at full width (%d integer conversions of it, none narrowing)", n), bad)
 	}
+	cx.lostUpdateRule(r, []string{"record"}, 2)
 	r.requireCount("contents", 1)
 	r.requireCount("who-may-write", 2)
 }
